@@ -533,7 +533,8 @@ func run(c *xs.Ctx, r *xs.Result) {
 						rn.submit(cd, []mutation{m1}, mode)
 						r.Count("single_mutations", 1)
 					}
-					if !c.Thorough() {
+					// two-field closure: everywhere in the thorough tier, in state A under the enforced regime in the quick tier
+					if !c.Thorough() && !(enf && strings.HasPrefix(st.Name, "A:")) {
 						continue
 					}
 					for _, m2 := range dom[i+1:] {
